@@ -202,7 +202,10 @@ FirstLevel == TLCGet("level") <= 2
 CircuitsSmall == { [ops |-> <<>>, w |-> 2, sym |-> FALSE],
                    [ops |-> <<"g">>, w |-> 1, sym |-> FALSE],
                    [ops |-> <<"g", "p", "g">>, w |-> 2, sym |-> FALSE],
-                   [ops |-> <<"g">>, w |-> 1, sym |-> TRUE] }
+                   [ops |-> <<"g">>, w |-> 1, sym |-> TRUE],
+                   \* the SAME operations on a wider register (idle qubits), and an empty register of another width
+                   [ops |-> <<"g">>, w |-> 3, sym |-> FALSE],
+                   [ops |-> <<>>, w |-> 3, sym |-> FALSE] }
 CircuitsAll == CircuitsSmall \cup
                  { [ops |-> <<"g", "g">>, w |-> 3, sym |-> FALSE],
                    [ops |-> <<"p", "g", "g", "p">>, w |-> 2, sym |-> FALSE],
